@@ -123,6 +123,14 @@ fn c06_configs(tier: Tier) -> Vec<TcpCfg> {
         c.liveness = false;
         c.w = 1;
     });
+    // only the accepting side writes: the handshake ACK is the client's only packet until
+    // it has something to acknowledge, and it may be the one that is lost
+    add("server-speaks-first-s2-D1", &|c| {
+        c.c_chunks = vec![];
+        c.s_bytes = 2;
+        c.mode = Mode::ServerSpeaksFirst;
+        c.send_cap = 4;
+    });
     add("loopback-t4", &|c| {
         c.topo = Topo::Loopback;
         c.loopback_mtu = 42;
